@@ -133,13 +133,13 @@ class SList(Sym):
 
 class SSet(Sym):
     """Symbolic set: membership closure has(value)->z3 Bool, card z3 Int or None."""
-    __slots__ = ('has', 'card', 'elt', 'witness')
     pytype = set
 
-    def __init__(self, has, card=None, elt=None):
+    def __init__(self, has, card=None, elt=None, forall=None):
         self.has = has
         self.card = card
         self.elt = elt
+        self.forall = forall      # forall(pred) -> z3 Bool over a superset of the members
 
 
 class SMap(Sym):
@@ -156,6 +156,16 @@ class SMap(Sym):
         self.keyt = keyt
         self.valt = valt
         self.label = label
+
+
+class SymKeyDict(object):
+    """
+    Mutable dict whose keys may be symbolic strings: a list of (key, value)
+    entries with pairwise-distinct keys.  Lookups branch on key equality.
+    Heap object (identity preserved), so aliasing behaves as in Python.
+    """
+    def __init__(self, entries=()):
+        self.entries = [list(e) for e in entries]
 
 
 class SObj(object):
